@@ -275,6 +275,18 @@ def compare(node: ast.Compare, env: Env) -> Term:
             ne = nonempty(src, env)
             parts.append(ne if sym == "is not" else neg(ne))
             continue
+        # ``set(B) <= A`` / ``A >= set(B)``: every element of B is in A (only when one side is syntactically a set construction)
+        def _is_set_ctor(n: ast.AST) -> bool:
+            return isinstance(n, (ast.Set, ast.SetComp)) or (isinstance(n, ast.Call) and isinstance(n.func, ast.Name) and n.func.id in ("set", "frozenset") and len(n.args) == 1
+                                                            and n.func.id not in env.names)
+
+        if sym in ("<=", ">=") and (_is_set_ctor(a_node) or _is_set_ctor(b_node)) and not isinstance(a_node, (ast.Set, ast.SetComp)) and not isinstance(b_node, (ast.Set, ast.SetComp)):
+            small_n, big_n = (a_node, b_node) if sym == "<=" else (b_node, a_node)
+            inner = env.child()
+            dom = ("iter", _unset(small_n, env))
+            bv = ("bv", inner.depth, 0)
+            parts.append(("forall", dom, ("in", bv, _unset(big_n, env))))
+            continue
         a, b = T(a_node, env), T(b_node, env)
         # the same idiom with the next(...) bound to a local first
         if sym in ("is not", "is") and isinstance(b_node, ast.Name) and b_node.id not in env.names and b_node.id.lstrip("_").isupper() \
@@ -324,6 +336,14 @@ def comp(kind: str, gens: List[ast.comprehension], elt_fn, env: Env) -> Term:
     return ("comp", kind, dom, conds, body)
 
 
+def _unset(node: ast.AST, env: Env) -> Term:
+    """term of a collection used only for membership / iteration-as-a-set: set(X), frozenset(X), list(X), tuple(X) are X"""
+    while isinstance(node, ast.Call) and isinstance(node.func, ast.Name) and node.func.id in ("set", "frozenset", "list", "tuple") and len(node.args) == 1 and not node.keywords \
+            and node.func.id not in env.names:
+        node = node.args[0]
+    return T(node, env)
+
+
 def call(node: ast.Call, env: Env) -> Term:
     f = node.func
     if isinstance(f, ast.Name) and not node.keywords:
@@ -366,12 +386,37 @@ def call(node: ast.Call, env: Env) -> Term:
             return T(ge, env)
         if name == "bool" and len(args) == 1:
             return T(args[0], env)
+        if name == "chain" and len(args) == 1 and isinstance(args[0], ast.Starred) and isinstance(args[0].value, (ast.GeneratorExp, ast.ListComp)) and len(args[0].value.generators) == 1 \
+                and not args[0].value.generators[0].ifs:
+            # chain(*(f(x) for x in D))  ==  for x in D: yield from f(x)
+            ge = args[0].value
+            inner = env.child()
+            dom = ("iter", T(ge.generators[0].iter, env))
+            bind_target(ge.generators[0].target, inner)
+            return ("concat", dom, ("iter", T(ge.elt, inner)))
         if name == "iter" and len(args) == 1:
             return ("iter", T(args[0], env))
     recv: Optional[Term] = None
     if isinstance(f, ast.Attribute) and isinstance(f.value, ast.Name) and f.value.id in ("itertools", "functools", "operator", "collections", "math", "bisect") and f.value.id not in env.names:
         # itertools.islice(..) and islice(..) are the same call
         return call(ast.Call(func=ast.Name(id=f.attr, ctx=ast.Load()), args=node.args, keywords=node.keywords), env)
+    if isinstance(f, ast.Attribute) and f.attr == "from_iterable" and isinstance(f.value, ast.Name) and f.value.id == "chain" and len(node.args) == 1 and not node.keywords \
+            and isinstance(node.args[0], (ast.GeneratorExp, ast.ListComp)) and len(node.args[0].generators) == 1 and not node.args[0].generators[0].ifs:
+        ge = node.args[0]
+        inner = env.child()
+        dom = ("iter", T(ge.generators[0].iter, env))
+        bind_target(ge.generators[0].target, inner)
+        return ("concat", dom, ("iter", T(ge.elt, inner)))
+    if isinstance(f, ast.Attribute) and isinstance(f.value, ast.Attribute) and isinstance(f.value.value, ast.Name) and f.value.value.id == "itertools" and f.value.attr == "chain" and f.attr == "from_iterable":
+        return call(ast.Call(func=ast.Attribute(value=ast.Name(id="chain", ctx=ast.Load()), attr="from_iterable", ctx=ast.Load()), args=node.args, keywords=node.keywords), env)
+    if isinstance(f, ast.Attribute) and f.attr in ("issuperset", "issubset") and len(node.args) == 1 and not node.keywords:
+        # A.issuperset(B)  ==  all(b in A for b in B);   A.issubset(B)  ==  all(a in B for a in A)
+        big, small = (f.value, node.args[0]) if f.attr == "issuperset" else (node.args[0], f.value)
+        inner = env.child()
+        dom = ("iter", _unset(small, env))
+        bv = ("bv", inner.depth, 0)
+        inner.depth += 1
+        return ("forall", dom, ("in", bv, _unset(big, env)))
     if isinstance(f, ast.Attribute) and f.attr in ("contains", "avoids") and len(node.args) == 1 and not node.keywords and isinstance(node.args[0], ast.Starred):
         # the package's variadic containment tests (Perm / MeshPatt .contains(*ps), .avoids(*ps)) are conjunctions over their
         # arguments: p.contains(*G) == all(p.contains(g) for g in G)
@@ -397,6 +442,10 @@ def call(node: ast.Call, env: Env) -> Term:
         name = "<call>"
     args_t = tuple(T(a, env) for a in node.args)
     kw_t = tuple(sorted(((k.arg or "**", T(k.value, env)) for k in node.keywords), key=_key))
+    if name == "from_iterable" and recv == ("name", "chain") and len(args_t) == 1 and not kw_t and isinstance(args_t[0], tuple) and args_t[0] and args_t[0][0] == "comp" \
+            and args_t[0][3] == TRUE and not (isinstance(args_t[0][4], tuple) and args_t[0][4] and args_t[0][4][0] == "comp"):
+        # chain.from_iterable(map(f, D)) / chain.from_iterable(<generator bound earlier>)
+        return ("concat", args_t[0][2], ("iter", args_t[0][4]))
     if recv is None and name == "range" and len(args_t) == 1 and not kw_t:
         args_t = (("const", "0"),) + args_t  # range(n) is range(0, n)
     return ("call", recv, name, args_t, kw_t)
@@ -517,6 +566,17 @@ def body_term(stmts: Sequence[ast.stmt], env: Env) -> Term:
                 return mk_or([("exists", dom, c), after])
             if k == FALSE:
                 return mk_and([("forall", dom, neg(c)), after])
+        # several search tests in one loop:  for v in D: if C1: return K; if C2: return K   (same constant K)
+        if len(st.body) > 1 and all(isinstance(b, ast.If) and not b.orelse and len(b.body) == 1 and isinstance(b.body[0], ast.Return) and isinstance(b.body[0].value, ast.Constant)
+                                    and isinstance(b.body[0].value.value, bool) for b in st.body) and len({b.body[0].value.value for b in st.body}) == 1:
+            inner = env.child()
+            dom = ("iter", T(st.iter, env))
+            bind_target(st.target, inner)
+            c = mk_or([T(b.test, inner) for b in st.body])
+            after = body_term(rest, env)
+            if st.body[0].body[0].value.value is True:
+                return mk_or([("exists", dom, c), after])
+            return mk_and([("forall", dom, neg(c)), after])
         # nested search loops:  for v in D: for w in E(v): if C: return K
         nested = _nested_search(st, env)
         if nested is not None:
